@@ -2,7 +2,7 @@
    components instantiated to N (the harness numbers the distinct component
    strings of a case; the core only ever compares them). *)
 From Coq Require Import List Bool NArith.
-From PTA Require Import Sx Names Graph Search Worklist Rule.
+From PTA Require Import Sx Names Graph Search Worklist Rule WRule.
 Import ListNotations.
 Open Scope N_scope.
 
@@ -102,6 +102,21 @@ Definition run_assert_applies (arg : sx) : sx :=
     | Some g, Some t, Some cs =>
       L (map (fun c => let r := assert_applies ceq (rmatch_of t) g c in
                        L [of_cfg (fst r); of_outcome (snd r)]) cs)
+    | _, _, _ => sx_err
+    end
+  | _ => sx_err
+  end.
+
+(* fn 34: the same, with the graph queries run by the worklist loops; an evaluation that ran out of fuel is answered [A 9] *)
+Definition run_wassert_applies (arg : sx) : sx :=
+  match arg with
+  | L [g; t; cs] =>
+    match as_graph g, as_rtable t, as_list as_cfg cs with
+    | Some g, Some t, Some cs =>
+      L (map (fun c => match w_assert_applies ceq (rmatch_of t) g c with
+                       | Some o => L [of_cfg c; of_outcome o]
+                       | None => L [of_cfg c; L [A 9]]
+                       end) cs)
     | _, _, _ => sx_err
     end
   | _ => sx_err
